@@ -464,6 +464,30 @@ func c20Types(c *eng.Ctx, parse, apply *ssa.Function) {
 			return "the field is recorded anyway: " + p.PathStr(path)
 		}())
 	}
+	// untagged fields are never recorded: the append of a fieldInfo is edge-dominated by the ok edge of the tag lookup
+	eng.Instrs(parse, func(in ssa.Instruction) {
+		args, ok := eng.BuiltinCall(in, "append")
+		if !ok {
+			return
+		}
+		sl, isSl := args[0].Type().Underlying().(*types.Slice)
+		if !isSl || !eng.IsNamed(sl.Elem(), setecPkg, "fieldInfo") {
+			return
+		}
+		okk := false
+		for _, cond := range eng.FactsAt(in) {
+			if v, truth, isB := cond.Bool(); isB && truth {
+				if ex, isEx := eng.Origin(v).(*ssa.Extract); isEx && ex.Index == 1 {
+					if call, isC := ex.Tuple.(*ssa.Call); isC && eng.CalleeIs(&call.Call, "reflect", "StructTag.Lookup") {
+						if tg, isK := eng.ConstString(call.Call.Args[1]); isK && tg == "setec" {
+							okk = true
+						}
+					}
+				}
+			}
+		}
+		c.Check(okk, "R-C20-4", parse, in.Pos(), "recording of a field in parseFields", "only fields carrying a setec tag are recorded (untagged fields stay untouched)", "holding: "+eng.FactsString(in))
+	})
 	// empty tag name rejected before the field is recorded; pointer-to-struct test first; ErrNoFields
 	var emptyIf *ssa.If
 	eng.Instrs(parse, func(in ssa.Instruction) {
